@@ -11,6 +11,9 @@ from harness.common import engine_run, coq_crosscheck, fq
 
 TARGETS = ["theories/Props/C03.vo", "theories/Proofs/GenEq_MetricTable.vo", "theories/Proofs/GenEq_MatcherLoop.vo"]
 GENEQ = {"theories/Proofs/GenEq_MetricTable.vo": "MetricTable", "theories/Proofs/GenEq_MatcherLoop.vo": "MatcherLoop"}
+# T1 units added after round 4 of the seeded changes
+TARGETS = TARGETS + ["theories/Proofs/GenEq_MetricCall.vo"]
+GENEQ = dict(GENEQ, **{"theories/Proofs/GenEq_MetricCall.vo": "MetricCall"})
 ALLOWED_AXIOMS = []
 RULE = ("case = (unmatched instance pair, matching metric in {IOU,DSC,ASSD}, threshold drawn from achieved scores / their float neighbours / 0 / 1 / "
         "random, allow_many_to_one); the implementation's matching (recovered from the relabelled array) is checked with the Coq-extracted "
